@@ -184,6 +184,16 @@ CHECKS = {
              "replays through the machine to judge count, order, end points, curve points and the error vectors shown.",
         design="DESIGN.md §5 C17",
         note=TRUST + "; recording closure and 1024 scaling in harness/src/spline.rs"),
+    "C15": dict(
+        technique="TLA+ predicates Mesh (index validity, watertightness as directed class-edge pairing, Euler characteristic, "
+                  "winding / normal flags) and a TLA+ model of the lathe's ring layout; TLC proves the topology clauses on the "
+                  "model for every sector / point count and shape class; trace validation of every real solid",
+        text="TLC checks on the ring-layout model that spheres, capsules, capped cylinders and cones are closed with Euler "
+             "characteristic 2 and tori with 0 for every count in range, with boundary only where expected for open "
+             "surfaces; every real solid over the same parameter ranges (plus Platonic solids, boxes and partial azimuth "
+             "lathes) is built, its positions clustered into classes, and TLC judges its faces and flags.",
+        design="DESIGN.md §5 C15",
+        note=TRUST + "; clustering and geometric flag computation in harness/src/mesh.rs (f64)"),
 }
 
 NOT_YET = "check not built yet in this round (see DESIGN.md §9 for the order of work)"
